@@ -76,6 +76,68 @@ fn check_op(op: &DiffOp, old: &[u32], new: &[u32], out: &mut Local) {
             }
         }
     }
+    // the same expansion through the standard iterator adaptors (they may be specialised)
+    out.eval();
+    let expect_all = reference_changes(op, old, new);
+    let adaptors = guard(|| {
+        let row = |c: similar::Change<u32>| -> Row { (c.tag(), c.old_index(), c.new_index(), c.value()) };
+        let mut fails: Vec<String> = Vec::new();
+        let n = expect_all.len();
+        for pre in 0..=n.min(3) {
+            for k in 0..=(n - pre.min(n)).min(4) {
+                // pre x next(), then nth(k)
+                let mut it = op.iter_changes(old, new);
+                for _ in 0..pre {
+                    it.next();
+                }
+                let got = it.nth(k).map(row);
+                let want = expect_all.get(pre + k).copied();
+                if got != want {
+                    fails.push(format!("after {} next(), nth({}) = {:?}, expected {:?}", pre, k, got, want));
+                }
+                let rest: Vec<Row> = it.map(row).collect();
+                let want_rest: Vec<Row> = expect_all.iter().skip(pre + k + 1).copied().collect();
+                if got.is_some() && rest != want_rest {
+                    fails.push(format!("after {} next() and nth({}), the rest is {:?}, expected {:?}", pre, k, rest, want_rest));
+                }
+            }
+            for step in 2..=3usize {
+                let mut it = op.iter_changes(old, new);
+                for _ in 0..pre {
+                    it.next();
+                }
+                let got: Vec<Row> = it.step_by(step).map(row).collect();
+                let want: Vec<Row> = expect_all.iter().skip(pre).step_by(step).copied().collect();
+                if got != want {
+                    fails.push(format!("after {} next(), step_by({}) = {:?}, expected {:?}", pre, step, got, want));
+                }
+            }
+            let got: Vec<Row> = op.iter_changes(old, new).skip(pre).map(row).collect();
+            let want: Vec<Row> = expect_all.iter().skip(pre).copied().collect();
+            if got != want {
+                fails.push(format!("skip({}) = {:?}, expected {:?}", pre, got, want));
+            }
+        }
+        if op.iter_changes(old, new).count() != n {
+            fails.push(format!("count() = {}, expected {}", op.iter_changes(old, new).count(), n));
+        }
+        if op.iter_changes(old, new).last().map(row) != expect_all.last().copied() {
+            fails.push("last() differs".to_string());
+        }
+        let (lo, hi) = op.iter_changes(old, new).size_hint();
+        if lo > n || hi.map_or(false, |h| h < n) {
+            fails.push(format!("size_hint() = ({}, {:?}) but the expansion has {} changes", lo, hi, n));
+        }
+        fails
+    });
+    match adaptors {
+        Err(p) => out.violation("panic", format!("iterator adaptor panicked: {} | {}", p, ctx())),
+        Ok(fails) => {
+            if let Some(f) = fails.first() {
+                out.violation("expand.iterator_adaptors", format!("{} ({} disagreements) | {}", f, fails.len(), ctx()));
+            }
+        }
+    }
     // slice-wise
     out.eval();
     match guard(|| op.iter_slices(old, new).map(|(t, s)| (t, s.to_vec())).collect::<Vec<_>>()) {
@@ -226,6 +288,34 @@ pub fn families() -> Vec<Box<dyn Family>> {
                         }
                     }
                     let mut fails: Vec<(&'static str, String)> = Vec::new();
+                    // whole-diff iteration through standard adaptors
+                    fn rrow<'x>(c: similar::Change<&'x str>) -> (ChangeTag, Option<usize>, Option<usize>, &'x str) {
+                        (c.tag(), c.old_index(), c.new_index(), c.value())
+                    }
+                    for pre in [0usize, 1, 2, 5] {
+                        for k in [0usize, 1, 2, 3, 7] {
+                            let mut it = d.iter_all_changes();
+                            for _ in 0..pre {
+                                it.next();
+                            }
+                            let got = it.nth(k).map(rrow);
+                            let want = reference.get(pre + k).copied();
+                            if got != want {
+                                fails.push(("expand.iterator_adaptors", format!("iter_all_changes: after {} next(), nth({}) = {:?}, expected {:?}; ops {:?}", pre, k, got, want, d.ops())));
+                            }
+                        }
+                        let got: Vec<R> = d.iter_all_changes().skip(pre).step_by(3).map(rrow).collect();
+                        let want: Vec<R> = reference.iter().skip(pre).step_by(3).copied().collect();
+                        if got != want {
+                            fails.push(("expand.iterator_adaptors", format!("iter_all_changes: skip({}).step_by(3) differs; ops {:?}", pre, d.ops())));
+                        }
+                    }
+                    if d.iter_all_changes().count() != reference.len() {
+                        fails.push(("expand.iterator_adaptors", format!("iter_all_changes().count() = {} but {} changes expected", d.iter_all_changes().count(), reference.len())));
+                    }
+                    if d.iter_all_changes().last().map(rrow) != reference.last().copied() {
+                        fails.push(("expand.iterator_adaptors", "iter_all_changes().last() differs".to_string()));
+                    }
                     if all != reference {
                         fails.push(("expand.iter_all_changes", format!("iter_all_changes gives {:?} but the ops {:?} expand to {:?}", all, d.ops(), reference)));
                     }
